@@ -356,6 +356,8 @@ class LoopCheck(Check):
             ref = self._aspire_run(ctx, cfg, fns, os.path.join(tmp, "ref.h5"))
             if ref.stopped or ref.final is None:
                 raise core.PathCut()
+            if "C15" in self.props:
+                loop_checks.check_run(ctx, ref, {"C15"}, label_suffix="@aspire")
             total = len(ref.target.ll_calls)
             points = range(1, total + 1) if cfg.get("all_crash_points") else [total]
             for c in points:
@@ -390,6 +392,9 @@ class LoopCheck(Check):
                 if "C11" in self.props:
                     res.kernel_offset = len(pickle.loads(last)["history"].mcmc_acceptance)
                     loop_checks.compare_runs(ctx, ref, res, "c11/resume_constructor", detail=d)
+                if "C15" in self.props and not res.stopped and res.final is not None:
+                    # the instance rebuilt from the file works in the precision that was saved
+                    loop_checks.check_run(ctx, res, {"C15"}, label_suffix="@resume_constructor")
         finally:
             A.get_flow_wrapper = old_wrapper
 
@@ -417,7 +422,8 @@ class LoopCheck(Check):
                     return env
                 env.final = a.sample_posterior(preconditioning="none", **kw)
             else:
-                a = Aspire(log_likelihood=env.target.log_likelihood, log_prior=env.target.log_prior, dims=d, parameters=params, flow=env.flow, xp=sx)
+                extra = {"dtype": (sx.float32 if cfg["dtype"] == "obj32" else cfg["dtype"])} if cfg.get("dtype") else {}
+                a = Aspire(log_likelihood=env.target.log_likelihood, log_prior=env.target.log_prior, dims=d, parameters=params, flow=env.flow, xp=sx, **extra)
                 env.final = a.sample_posterior(n_samples=env.N, sampler="smc", checkpoint_path=path, preconditioning="none", **kw)
         except smc_loop._Stop:
             env.stopped = True
